@@ -501,6 +501,11 @@ def main(chk: Check, replay: dict | None = None) -> int:
                              "c03_in * c03_obs", [c["coq"] for c in cases], "Corr.C03.run", shard=12)
     for c in cases:
         c.pop("coq", None)
+    if codes is not None:
+        bad = [c for c, k in zip(cases, codes) if (k >> 4) & 1]
+        if bad:
+            chk.broken.append({"kind": "guard", "name": "C03_maps_bijective_partial: generated field names not distinct",
+                               "mismatches": len(bad), "first": {"input": bad[0]["input"], "obs": bad[0]["obs"]["classes"]}})
     chk.decide(cases, codes, {1: "F03a", 2: "F03b", 3: "F03c"},
                "Corr.C03.run: gen_class + run_ops (model) = dataclasses of the generated package + its own "
                "structure_from_dict/unstructure_to_dict")
